@@ -3,6 +3,7 @@ mod monitors;
 mod report;
 mod rng;
 mod simnode;
+mod slots;
 mod tower;
 mod towerhist;
 mod txindex;
@@ -34,6 +35,10 @@ fn main() {
         "txindex" => {
             txindex::run(seed, thorough, &mut rep);
             rep.finish("every connect/disconnect sequence of the given length over a small key universe (keys unique in the active chain, re-appearing only in replacement blocks) for N in 1..3, plus random sequences with reorgs at N=6 and N=100; a case is non-trivial when it has a disconnect and a block with keys; distinct = distinct op sequences", true);
+        }
+        "slots" => {
+            slots::run(seed, thorough, &mut rep);
+            rep.finish("compute_appointment_slots for every blob length 0..=2^24+2^13 (exhaustive: the change points of the real function and of the model are compared) plus random lengths up to 2^32 around powers of two and slot boundaries", true);
         }
         "tower" => {
             towerhist::run(seed, thorough, &mut rep);
